@@ -197,4 +197,24 @@ PROPS = {
         'assumptions': ['integer literals >= 2^128 or with digits outside the radix make the analyser panic: listed under C03'],
         'partial': ['floats, timing, imaginary, boolean literals and negation folding: implementation oracle only'],
     },
+    'C13': {
+        'coq': 'Props/C13.v',
+        'families': [
+            {'name': 'use', 'args': {'quick': ['--random', 6000], 'thorough': ['--random', 400000]},
+             'shards': {'quick': 16, 'thorough': 16}, 'driver_args': []},
+        ],
+        'exhaustive': {'quick': False, 'thorough': False},
+        'rule': 'programs of 1-9 usage sites in 1-3 scope contexts (global, if/else/while/for/case/default blocks, gate and def bodies, '
+                'nested) over all 33 built-in/standard gates and user gates with 0-4 parameters / 1-4 qubits: gate calls (plain, inv, pow) '
+                'with each arity independently right or wrong, callee a gate/def/classical/qubit/undeclared name, operands of 11 forms '
+                '(qubit, register, indexed, hardware, classical, const, undeclared, gate, def, indexed scalar), measure/reset/barrier '
+                'operands, binary operators with quantum operands, def calls with 0-4 arguments, assignment to '
+                'const/non-const/undeclared/quantum/gate targets, qubit/gate/def declarations and return in every scope kind, delay with '
+                'duration and non-duration designators; the whole ordered list of usage diagnostics is compared; non-trivial = more than '
+                'one site or at least one diagnostic',
+        'trusted_base': ['Model/Usage.v (hand-written mirror of the usage checks)',
+                         'the harness maps each generated site to its descriptor (what the names of the fixed preamble are bound to)'],
+        'assumptions': ['ctrl/negctrl-modified calls are outside the rule (the property states it for unmodified and inv/pow-modified calls)'],
+        'partial': ['symbol lookup and scope tracking are inputs of the model (they are C07/C19); tied by correspondence only'],
+    },
 }
